@@ -15,13 +15,14 @@ props = [c['property_id'] for c in json.load(open(os.path.join(verif, 'MANIFEST.
 for a in sys.argv[1:]:
     if a.startswith('--props='):
         props = a.split('=')[1].split(',')
+subprocess.run(['sh', os.path.join(verif, 'tools', 'setup.sh')], cwd=verif)
 for sd in seeds:
     for p in props:
         t = time.time()
         r = subprocess.run(['/venv/bin/python', os.path.join(verif, 'run_check.py'), p, '--tier', tier, '--no-evidence'],
                            capture_output=True, text=True, env=dict(os.environ, VERIF_SEED=sd), cwd=verif)
         lines = (r.stdout + r.stderr).strip().splitlines()
-        viol = [l for l in lines if l.startswith('violation detail') or l.startswith('HARNESS-ERROR')][:3]
-        print('%s seed=%s exit=%d %.0fs %s' % (p, sd, r.returncode, time.time() - t, lines[-1][:200] if lines else ''), flush=True)
+        viol = [l for l in lines if l.startswith('violation detail') or l.startswith('HARNESS-ERROR') or l.startswith('VIOLATION')][:4]
+        print('%s seed=%s exit=%d %.0fs %s' % (p, sd, r.returncode, time.time() - t, ([l for l in lines if ' tier=' in l and 'evaluations' in l] or lines or [''])[-1][:200]), flush=True)
         for v in viol:
             print('    ' + v[:400], flush=True)
